@@ -58,9 +58,9 @@ P('C07',
   technique=KANI + ', generators abstracted to their contracts')
 P('C08',
   assumptions=[ARITH, A2, A7],
-  level_text='Every transition obligation proves the hash update in difference form (hash\' == hash ^ side switch ^ STEP change ^ board delta), place/pass/exclude_step/transposition_hash are proved as XOR algebra over the real tables, Eq/Hash use exactly the board-state hash, recorded history entries are the new turn-start hashes.',
+  level_text='Every transition obligation proves the hash update in difference form (hash\' == hash ^ side switch ^ STEP change ^ board delta), place/pass/exclude_step/transposition_hash are proved as XOR algebra over the real tables, Eq/Hash use exactly the board-state hash, recorded history entries are the new turn-start hashes; the composition "difference form + delta == Hb(old)^Hb(new) + H ==> hash\' == H(new position)" is itself a Verus lemma (unit chain).',
   level_note='The board delta piece_board_value == Hb(prev)^Hb(new) and from_piece_board == H(board,side,step) are Verus obligations on the mechanically extracted real loops (units pbv, fpb; real piece_value, Square::index, bits_for_piece and the real constant tables are extracted and verified there too; the seam is a contracted external proved in unit seam). A bounded concrete companion (eight capture scenarios) exists only to give a failing input when those units lose their anchors.',
-  technique=KANI + '; Verus for the hashing loops')
+  technique=KANI + '; Verus for the hashing loops and for the chain lemma that composes the two')
 P('C09',
   assumptions=[ARITH, A2],
   level_text='One obligation over a symbolic placed-set satisfying the setup invariant (every prefix of every placement order of both armies at once): offered placements == types below complement in E,M,H,D,C,R order (non-empty), place() puts the piece on the n-th home square and changes nothing else, invariant preserved, side/phase/move-number switch at the 16th/32nd placement, hash update, history start.',
